@@ -167,6 +167,47 @@ def worker_file_calls(server_tree):
     return out
 
 
+def worker_contexts(server_tree):
+    """worker -> items of its `async with` statements (outermost first, flattened), each item NORMALISED by what
+    the variable is bound to in the worker: "stream" (= connection.data_connection), "file" (= connection.path_io.open(..)),
+    "?<source>" for anything else.  Robust to renaming of locals and to `async with a, b` vs nested withs."""
+    out = []
+    srv = [n for n in server_tree.body if isinstance(n, ast.ClassDef) and n.name == "Server"][0]
+    for m in srv.body:
+        if not isinstance(m, ast.AsyncFunctionDef):
+            continue
+        for wk in [n for n in m.body if isinstance(n, ast.AsyncFunctionDef) and n.name.endswith("_worker")]:
+            bind = {}
+            for st in ast.walk(wk):
+                if isinstance(st, ast.Assign) and len(st.targets) == 1 and isinstance(st.targets[0], ast.Name):
+                    v = st.targets[0].id
+                    if src(st.value) == "connection.data_connection":
+                        kind = "stream"
+                    elif isinstance(st.value, ast.Call) and src(st.value.func) == "connection.path_io.open":
+                        kind = "file"
+                    else:
+                        kind = None
+                    if v in bind and bind[v] != kind:
+                        bind[v] = "?rebound:" + v
+                    else:
+                        bind[v] = kind
+            withs = [n for n in _ordered(wk) if isinstance(n, ast.AsyncWith)]
+            # every further `async with` must be the sole statement nested in the previous one (one scope)
+            for a, b in zip(withs, withs[1:]):
+                if not (len(a.body) == 1 and a.body[0] is b):
+                    raise Unclassified(f"{wk.name}: async with statements are not one nested scope")
+            if withs and not any(st is withs[0] for st in wk.body):
+                raise Unclassified(f"{wk.name}: the async with is not a top-level statement of the worker")
+            items = []
+            for w in withs:
+                for it in w.items:
+                    e = it.context_expr
+                    k = bind.get(e.id) if isinstance(e, ast.Name) else None
+                    items.append(k if k else "?" + src(e))
+            out.append((wk.name, items))
+    return out
+
+
 def _ordered(node):
     """ast nodes in source order"""
     nodes = [n for n in ast.walk(node) if hasattr(n, "lineno")]
@@ -209,6 +250,7 @@ def generate(src_dir):
     ladder = universal_exception_ladder(funcs["universal_exception"])
     enter_calls, exit_calls, bound = filectx_facts(classes["AsyncPathIOContext"])
     wcalls = worker_file_calls(stree)
+    wctx = worker_contexts(stree)
 
     def row(c, es):
         return "(" + S(c) + ", [" + "; ".join("(" + S(m) + ", " + slist(ds) + ")" for m, ds in es) + "])"
@@ -225,6 +267,8 @@ def generate(src_dir):
     text += "Definition filectx_enter : list string := " + slist(enter_calls) + ".\n"
     text += "Definition filectx_exit : list string := " + slist(exit_calls) + ".\n"
     text += "Definition filectx_bound : list (string * string) := [" + "; ".join("(" + S(a) + ", " + S(b) + ")" for a, b in bound) + "].\n\n"
+    text += "(* worker -> items of its async-with scope, outermost first, normalised: stream = connection.data_connection, file = path_io.open(..) *)\n"
+    text += "Definition worker_ctx : list (string * list string) := [" + "; ".join("(" + S(w) + ", " + slist(items) + ")" for w, items in wctx) + "].\n\n"
     text += "(* worker -> file context variable -> methods called on it inside its async with, in source order *)\n"
     text += "Definition worker_file_calls : list (string * list (string * list string)) := [\n  " + ";\n  ".join(row(w, cs) for w, cs in wcalls) + "\n].\n"
     return text
